@@ -81,7 +81,7 @@ def generate(prop, rng, tier):
     decisions = _gen_decisions(rng, rng.choice([50, 300, 1500]), p) if faulty else []
     e = gen.edges(wp)
     ops = []
-    paths = ['a.txt', 'b.txt', 'c.txt']
+    paths = ['/simfs/a.txt', '/simfs/b.txt', '/simfs/c.txt']
     for _ in range(nops):
         r = rng.random()
         path = rng.choice(paths)
@@ -174,10 +174,8 @@ def execute(world, run, prop=None):
     fs = SimFS(plan, kn['buffer_size'], kn['chunk'], kn['write_through'], kn['linesep'])
     acked = {}     # path -> {'trains', 'sep', 'prec'}  (save returned normally)
     hand = {}      # path -> {'expected': [...], 'sep', 'comment'}
-    had = 'open' in mod.__dict__
-    old = mod.__dict__.get('open')
-    mod.open = fs.open
     bplan = BackendPlan(())
+    fs.install()
     try:
         with world.run_context(bplan, None):
             for step, op in enumerate(run['ops']):
@@ -187,10 +185,7 @@ def execute(world, run, prop=None):
                 if any(plan.fired[k] != before[k] for k in FAULT_KINDS):
                     rec.probe('fault_inside_' + op['op'])
     finally:
-        if had:
-            mod.open = old
-        else:
-            del mod.open
+        fs.uninstall()
     fired = dict(plan.fired)
     rec.log(('raw', len(plan.log), digest(plan.log)))
     return rec, fired
@@ -348,7 +343,7 @@ def _exec(spk, rec, op, fs, plan, acked, hand, e):
         mat = op['mat']
         sep = op['sep']
         fn = os.path.join(_tmpdir(), 'ts-%d.txt' % os.getpid())
-        with open(fn, 'w') as f:
+        with open(fn, 'w') as f:      # a real temporary file (np.loadtxt opens the path itself)
             if op['comment']:
                 f.write('# time series\n')
             for row in mat:
@@ -468,3 +463,22 @@ def simplify(run):
             r = json.loads(json.dumps(run))
             r['ops'][oi]['prec'] = 8
             yield r
+
+
+def vary(run, rng):
+    ops = run['ops']
+    if not ops or rng.random() < 0.3:
+        return
+    for _ in range(rng.randint(1, 3)):
+        k = rng.randrange(len(ops))
+        o = json.loads(json.dumps(ops[k]))
+        if o['op'] == 'tseries':
+            o['start'] = rng.choice([0.0, -2.0, 1.5, 100.0, 10.0])
+            if rng.random() < 0.5:
+                o['mat'] = [[1 if rng.random() < 0.35 else 0 for _c in row] for row in o['mat']]
+        elif o['op'] == 'save':
+            # same path, different (often shorter) content
+            o['trains'] = [t[:rng.randint(0, len(t))] for t in o['trains'][:rng.randint(1, len(o['trains']))]]
+        elif o['op'] == 'crashsave':
+            continue
+        ops.insert(rng.randint(k + 1, len(ops)), o)
